@@ -378,4 +378,142 @@ theorem afterK_zero (spent : List (Spend ℝ)) (slack : ℝ) (k : Nat) :
     rw [sums_append_replicate, sums_append_replicate, sums_append_replicate]
     simp [gTerm_zero]
 
+/-! ### what `check` accepts (over ℝ) -/
+
+theorem checkEpsDelta_of (e d : ℝ) (he : 0 ≤ e) (hd0 : 0 ≤ d) (hd1 : d ≤ 1) (hne : e + d ≠ 0) :
+    checkEpsDelta e d = .ok () := by
+  have hf : feq (e + d) 0 = false := by
+    rw [Bool.eq_false_iff]; intro hh; exact hne ((feq_real _ _).mp hh)
+  simp [checkEpsDelta, he, hd0, hd1, hf]
+
+theorem mkBudget_of (e d : ℝ) (he : 0 ≤ e) (hd0 : 0 ≤ d) (hd1 : d ≤ 1) : mkBudget e d = .ok ⟨e, d⟩ := by
+  simp [mkBudget, he, hd0, hd1]
+
+theorem forM_of_forall {α : Type} (f : α → Except Err Unit) (l : List α) (h : ∀ x ∈ l, f x = .ok ()) :
+    l.forM f = .ok () := by
+  induction l with
+  | nil => rfl
+  | cons x xs ih =>
+    simp only [List.forM]
+    simp only [bind, Except.bind, h x (List.mem_cons_self ..)]
+    exact ih (fun y hy => h y (List.mem_cons_of_mem _ hy))
+
+theorem totalCore_eps_nonneg (l : List (Spend ℝ)) (slack : ℝ) (hl : ∀ sp ∈ l, 0 ≤ sp.eps) :
+    0 ≤ (totalCore l slack).eps := by
+  have hS : 0 ≤ (l.map (·.eps)).sum := by
+    apply List.sum_nonneg; intro x hx
+    obtain ⟨sp, hsp, rfl⟩ := List.mem_map.mp hx
+    exact hl sp hsp
+  by_cases h0 : slack = 0
+  · subst h0; rw [totalCore_eps_zero]; exact hS
+  · rw [totalCore_eps_pos _ _ h0, epsOf]
+    have hE : 0 ≤ (l.map (fun sp => gTerm sp.eps)).sum := by
+      apply List.sum_nonneg; intro x hx
+      obtain ⟨sp, hsp, rfl⟩ := List.mem_map.mp hx
+      exact gTerm_nonneg (hl sp hsp)
+    exact le_min hS (le_min (add_nonneg hE (Real.sqrt_nonneg _)) (add_nonneg hE (Real.sqrt_nonneg _)))
+
+theorem totalCore_delta_range (l : List (Spend ℝ)) (slack : ℝ)
+    (hl : ∀ sp ∈ l, 0 ≤ sp.delta ∧ sp.delta ≤ 1) (hs0 : 0 ≤ slack) (hs1 : slack ≤ 1) :
+    0 ≤ (totalCore l slack).delta ∧ (totalCore l slack).delta ≤ 1 := by
+  rw [totalCore_delta]
+  have hp := prod_one_sub_nonneg l (fun sp h => (hl sp h).2)
+  have hp1 := prod_one_sub_le_one l hl
+  constructor
+  · nlinarith
+  · nlinarith
+
+/-- appending one spend `(e, d)`, `e ≥ 0`, `d ≥ 0`, does not decrease either component -/
+theorem totalCore_mono_append (l : List (Spend ℝ)) (slack e d : ℝ)
+    (hl : ∀ sp ∈ l, sp.delta ≤ 1) (hs0 : 0 ≤ slack) (hs1 : slack ≤ 1) (he : 0 ≤ e) (hd0 : 0 ≤ d) :
+    (totalCore l slack).eps ≤ (totalCore (l ++ [⟨e, d⟩]) slack).eps ∧
+    (totalCore l slack).delta ≤ (totalCore (l ++ [⟨e, d⟩]) slack).delta := by
+  constructor
+  · rcases eq_or_lt_of_le hs0 with h0 | hpos
+    · subst h0
+      rw [totalCore_eps_zero, totalCore_eps_zero]
+      simp only [List.map_append, List.sum_append, List.map_cons, List.map_nil, List.sum_cons, List.sum_nil]
+      linarith
+    · rw [totalCore_eps_pos _ _ hpos.ne', totalCore_eps_pos _ _ hpos.ne']
+      simp only [List.map_append, List.sum_append, List.map_cons, List.map_nil, List.sum_cons, List.sum_nil]
+      apply epsOf_mono _ _ (sum_sq_nonneg l) _ hpos hs1
+      · linarith
+      · linarith [gTerm_nonneg he]
+      · linarith [mul_self_nonneg e]
+  · rw [totalCore_delta, totalCore_delta]
+    simp only [List.map_append, List.prod_append, List.map_cons, List.map_nil, List.prod_cons, List.prod_nil]
+    have hp := prod_one_sub_nonneg l hl
+    have : 0 ≤ (1 - slack) * (l.map (fun sp => 1 - sp.delta)).prod * d :=
+      mul_nonneg (mul_nonneg (by linarith) hp) hd0
+    nlinarith
+
+/-- a prefix of `j` further identical spends costs no more than all of them -/
+theorem totalCore_le_append_replicate (l : List (Spend ℝ)) (slack e d : ℝ) (j : Nat)
+    (hl : ∀ sp ∈ l, sp.delta ≤ 1) (hs0 : 0 ≤ slack) (hs1 : slack ≤ 1) (he : 0 ≤ e) (hd0 : 0 ≤ d) (hd1 : d ≤ 1) :
+    (totalCore l slack).eps ≤ (totalCore (l ++ List.replicate j ⟨e, d⟩) slack).eps ∧
+    (totalCore l slack).delta ≤ (totalCore (l ++ List.replicate j ⟨e, d⟩) slack).delta := by
+  induction j with
+  | zero => simp
+  | succ j ih =>
+    rw [List.replicate_succ', ← List.append_assoc]
+    have hl' : ∀ sp ∈ l ++ List.replicate j ⟨e, d⟩, sp.delta ≤ 1 := by
+      intro sp hsp
+      rcases List.mem_append.mp hsp with h | h
+      · exact hl sp h
+      · rw [(List.mem_replicate.mp h).2]; exact hd1
+    have := totalCore_mono_append (l ++ List.replicate j ⟨e, d⟩) slack e d hl' hs0 hs1 he hd0
+    exact ⟨ih.1.trans this.1, ih.2.trans this.2⟩
+
+/-- `check(e, d)` over ℝ accepts whenever the arguments are valid, `e` is not below the minimum spend, the history
+is valid and the total including the new spend is within the ceiling -/
+theorem check_accepts (a : Acc ℝ) (e d : ℝ)
+    (hvalid : ∀ sp ∈ a.spent, checkEpsDelta sp.eps sp.delta = .ok ())
+    (he : 0 ≤ e) (hd0 : 0 ≤ d) (hd1 : d ≤ 1) (hne : e + d ≠ 0) (hmin : ¬ (0 < e ∧ e < a.minEps))
+    (hs0 : 0 ≤ a.slack) (hs1 : a.slack ≤ 1)
+    (heps : (totalCore (a.spent ++ [⟨e, d⟩]) a.slack).eps ≤ a.ceilEps)
+    (hdel : (totalCore (a.spent ++ [⟨e, d⟩]) a.slack).delta ≤ a.ceilDelta) :
+    a.check e d = .ok () := by
+  have h1 := checkEpsDelta_of e d he hd0 hd1 hne
+  have hall : ∀ sp ∈ a.spent ++ [⟨e, d⟩], checkEpsDelta sp.eps sp.delta = .ok () := by
+    intro sp hsp
+    rcases List.mem_append.mp hsp with h | h
+    · exact hvalid sp h
+    · rw [List.mem_singleton.mp h]; exact h1
+  have h4 := forM_of_forall (fun sp : Spend ℝ => checkEpsDelta sp.eps sp.delta) _ hall
+  have hrange : ∀ sp ∈ a.spent ++ [⟨e, d⟩], 0 ≤ sp.eps ∧ 0 ≤ sp.delta ∧ sp.delta ≤ 1 := by
+    intro sp hsp
+    have := checkEpsDelta_ok sp.eps sp.delta (hall sp hsp)
+    exact ⟨this.1, this.2.1, this.2.2.1⟩
+  have h5e := totalCore_eps_nonneg (a.spent ++ [⟨e, d⟩]) a.slack (fun sp h => (hrange sp h).1)
+  have h5d := totalCore_delta_range (a.spent ++ [⟨e, d⟩]) a.slack (fun sp h => (hrange sp h).2) hs0 hs1
+  have h5 := mkBudget_of _ _ h5e h5d.1 h5d.2
+  have h3 : (decide (0 < e) && decide (e < a.minEps)) = false := by
+    rw [Bool.eq_false_iff]; intro hh
+    simp only [Bool.and_eq_true, decide_eq_true_eq] at hh
+    exact hmin hh
+  unfold Acc.check
+  simp only [bind, Except.bind, pure, Except.pure, h1, Acc.unlimited, isPosInf_real, Bool.false_and,
+    Bool.false_eq_true, if_false, h3, h4, h5, heps, hdel, decide_true, Bool.and_self, if_true]
+
+/-- recording one more spend `(e, d)` with `e ≥ 0` in the history does not decrease `afterK` at any `x` -/
+theorem afterK_append_ge (spent : List (Spend ℝ)) (slack : ℝ) (k : Nat) (hs0 : 0 ≤ slack) (hs1 : slack ≤ 1)
+    (sp : Spend ℝ) (he : 0 ≤ sp.eps) (x : ℝ) :
+    afterK spent slack k x ≤ afterK (spent ++ [sp]) slack k x := by
+  unfold afterK
+  rcases eq_or_lt_of_le hs0 with h0 | hpos
+  · subst h0
+    rw [totalCore_eps_zero, totalCore_eps_zero]
+    simp only [List.map_append, List.sum_append, List.map_cons, List.map_nil, List.sum_cons, List.sum_nil]
+    linarith
+  · rw [totalCore_eps_pos _ _ hpos.ne', totalCore_eps_pos _ _ hpos.ne']
+    simp only [List.map_append, List.sum_append, List.map_cons, List.map_nil, List.sum_cons, List.sum_nil]
+    apply epsOf_mono _ _ _ _ hpos hs1
+    · linarith
+    · linarith [gTerm_nonneg he]
+    · exact add_nonneg (sum_sq_nonneg _) (List.sum_nonneg (by
+        intro y hy
+        obtain ⟨z, _, rfl⟩ := List.mem_map.mp hy
+        exact mul_self_nonneg _))
+    · linarith [mul_self_nonneg sp.eps]
+
 end DPL
